@@ -379,6 +379,15 @@ def _job_2d(args) -> Tuple[str, Any, int]:
         else:
             singles = light_axis_keys(h)
             pairs = [(yk, xk) for yk in light_axis_keys(h)[::2] for xk in light_axis_keys(wd)[::3]]
+        # the per-class __getitem__ wrappers are not shared even when _getitem_impl is (round 13: a scalar fast path in
+        # IntArray2D only, wrong for y >= 0 with a negative column): every scalar pair around the bounds, and every scalar
+        # against a few slices on the other axis, for every class
+        seen = {repr(p) for p in pairs}
+        ys, xs = range(-h - 2, h + 2), range(-wd - 2, wd + 2)
+        mixed = [(y, x) for y in ys for x in xs]
+        some = [slice(None), slice(None, None, -1), slice(1, None), slice(None, -1), slice(-1, None, -2)]
+        mixed += [(y, s) for y in ys for s in some] + [(s, x) for x in xs for s in some]
+        pairs += [p for p in mixed if repr(p) not in seen]
         for key in list(singles) + pairs:
             cases += 1
             w.ev.steps = 0
